@@ -323,12 +323,14 @@ def use_runs(s, quick, rnd, rot=0):
     n, p, size, fmt, ka = s["n"], s["p"], s["size"], s["fmt"], s["ka"]
     lo, hi = frange(fmt)
     ovals = values(s["ofmt"], s["ofmt"], rnd) + [w for w in WIDE if frange(s["ofmt"])[0] <= w <= frange(s["ofmt"])[1]]
-    count = 6 if quick else 10
-    out = [([rnd.randrange(256) for _ in range(n)], encode(s["ofmt"], 0))]
+    count = 6 if quick else 8
+    ok = lambda v: lo <= v <= hi and lo <= v + ka <= hi
+    short = [rnd.randrange(256) for _ in range(n)]          # fails the guard; its field is in the domain too
+    short[p:p + size] = encode(fmt, next(v for v in (rnd.randrange(lo, hi + 1), 0, 1, hi, lo) if ok(v)))
+    out = [(short, [SENT] * s["osz"] if s["op"] == "reada" else encode(s["ofmt"], 0))]
     for t in range(count):
         w = ovals[(rot + t) % len(ovals)]
         pivot = (s["kc"] if s["rhs"] == "const" else w) - ka if s["op"] == "cmp" else 0
-        ok = lambda v: lo <= v <= hi and lo <= v + ka <= hi
         near = [v for v in (pivot + 1, pivot, pivot - 1) if ok(v)]
         far = [v for v in WIDE + [lo, hi, 0, 1, -1, rnd.randrange(lo, hi + 1)] if ok(v)]
         # alternate: next to the right-hand side / elsewhere (values beyond 32 bits first)
